@@ -241,8 +241,6 @@ def allowedPreroll (tl : List Smp) : List Nat :=
     | s :: r => go (if s.nonSync then acc ++ [s.id] else [s.id]) r
   go [] pre
 
-/-- GET /get with the proposed fix (stop only when EVERY track is past the end of the window): per track, all
-samples before its cut-off reach the muxer -/
 /-- muxerFMP4.writeSample with the proposed fix notes/C29-fix-get-dts-not-monotonic.diff: once a visible sample has been
 received, later samples are never treated as pre-roll -/
 def muxStepFix (t : MTrack) (s : Smp) : MTrack :=
@@ -269,6 +267,8 @@ def getFixedWith (step : MTrack → Smp → MTrack) (tracks : List TrackInfo) (g
         if m.seenVisible then some (⟨m.tid, m.firstDTS, m.buf⟩ : GetOut) else none
       if outs.isEmpty then none else some outs
 
+/-- GET /get with the proposed fix (stop only when EVERY track is past the end of the window): per track, all
+samples before its cut-off reach the muxer -/
 def getFixed (tracks : List TrackInfo) (gsegs : List GSeg) (startNs durNs : Int) : Option (List GetOut) :=
   match findSegments (gsegs.map (·.seg)) (some startNs) (some (startNs + durNs)) with
   | none => none
